@@ -17,6 +17,11 @@ REQUIRED = [
     "Pixman.Props.C06.canon_extents_unique",
     "Pixman.Props.C06.canon_unique",
     "Pixman.Props.C06.equal_iff_mem",
+    "Pixman.Props.C06.wrapS_range",
+    "Pixman.Props.C06.exHist_reachable",
+    "Pixman.Props.C06.reachable_canon",
+    "Pixman.Props.C06.reachable_equal_iff",
+    "Pixman.Props.C06.reachable_same_points_same_rects",
 ]
 
 
